@@ -39,11 +39,42 @@ func workersCell(a *attackAnchors) *ssa.Alloc {
 	return cell
 }
 
+// ticksUnbuffered: the on-demand growth (a refused non-blocking offer means "every worker is
+// busy") and the pacing (a tick is handed over only when a worker takes it, so the hit starts when
+// the pacer said) both rest on the tick channel being a rendezvous.
+func ticksUnbuffered(c *Ctx, a *attackAnchors) {
+	const rule = "the tick channel is unbuffered: a tick is handed over only to a worker that is ready to fire it, so a refused offer means all workers are busy and no tick outlives the loop's decision to stop"
+	key := "ticks-unbuffered:" + shortFn(a.Attack)
+	var makes []*ssa.MakeChan
+	switch t := a.Ticks.(type) {
+	case *ssa.MakeChan:
+		makes = append(makes, t)
+	case *ssa.Alloc:
+		for _, r := range refs(t) {
+			if st, ok := r.(*ssa.Store); ok && st.Addr == ssa.Value(t) {
+				if mk, ok := st.Val.(*ssa.MakeChan); ok {
+					makes = append(makes, mk)
+				} else {
+					c.Fail(key, rule, "the tick channel is not created by make in Attack", c.at(st))
+					return
+				}
+			}
+		}
+	}
+	if len(makes) != 1 {
+		c.Undecided(key, rule, fmt.Sprintf("%d make(chan) sites for the tick channel", len(makes)), c.fnAt(a.Attack))
+		return
+	}
+	n, isConst := constInt(makes[0].Size)
+	c.Check(isConst && n == 0, key, rule, "make(chan struct{}) with no buffer", "the tick channel is buffered ("+describeVal(makes[0].Size)+" slots): paced ticks queue up without a ready worker, hits start later than the pacer scheduled and queued ticks still fire after the loop decided to stop", c.at(makes[0]))
+}
+
 func runC03(c *Ctx) {
 	a := resolveAttack(c)
 	if !a.ok(c, "C03") {
 		return
 	}
+	ticksUnbuffered(c, a)
 	const rCap = "workers are started only (i) in a counting loop bounded by a counter clamped to min(a.workers, a.maxWorkers) and (ii) under `counter < a.maxWorkers` with exactly one `counter+1` store per spawn; nothing else writes the counter or starts workers"
 	cell := workersCell(a)
 	if cell == nil {
@@ -542,6 +573,7 @@ func runC04(c *Ctx) {
 	if !a.ok(c, "C04") {
 		return
 	}
+	ticksUnbuffered(c, a)
 	fn := a.Loop
 	pace := a.Pace
 	if pace == nil {
@@ -846,14 +878,8 @@ func isAttackBeganLoad(v ssa.Value, a *attackAnchors) bool {
 		return false
 	}
 	fa, ok := u.X.(*ssa.FieldAddr)
-	if !ok || !isNamedType(fa.X.Type(), "lib", "attack") || fieldName(fa.X.Type(), fa.Field) != "began" {
+	if !ok || !a.atkField(fa, "began") {
 		return false
-	}
-	// lowercase attack type (not Attacker)
-	if p, ok := fa.X.Type().(*types.Pointer); ok {
-		if n, ok := p.Elem().(*types.Named); ok && n.Obj().Name() != "attack" {
-			return false
-		}
 	}
 	return true
 }
@@ -865,12 +891,8 @@ func c04BeganWriteOnce(c *Ctx, a *attackAnchors) {
 	for _, fn := range c.P.RepoFuncs("lib") {
 		eachInstr(fn, func(i ssa.Instruction) {
 			if st, ok := i.(*ssa.Store); ok {
-				if fa, ok := st.Addr.(*ssa.FieldAddr); ok && fieldName(fa.X.Type(), fa.Field) == "began" {
-					if p, ok := fa.X.Type().(*types.Pointer); ok {
-						if n, ok := p.Elem().(*types.Named); ok && n.Obj().Name() == "attack" && n.Obj().Pkg().Path() == pkgPath("lib") {
-							stores = append(stores, st)
-						}
-					}
+				if fa, ok := st.Addr.(*ssa.FieldAddr); ok && a.atkField(fa, "began") {
+					stores = append(stores, st)
 				}
 			}
 		})
